@@ -247,9 +247,11 @@ func (w *World) SortOf(t types.Type) (Sort, bool) {
 			return SeqOf(es)
 		}
 	case *types.Map:
+		// map[string]struct{}: a reference to a set of strings (ghost variable maps[ref]); package-level maps of
+		// constants are handled as set values by globalInit
 		if ks, ok := w.SortOf(u.Key()); ok && ks == SStr {
 			if st, ok := u.Elem().Underlying().(*types.Struct); ok && st.NumFields() == 0 {
-				return SSetStr, true
+				return SRef, true
 			}
 		}
 	}
@@ -352,6 +354,8 @@ func (w *World) registerAllFields() {
 func isPointer(t types.Type) bool { _, ok := t.Underlying().(*types.Pointer); return ok }
 
 func (w *World) initGhosts() {
+	w.GhostVars["maps"] = &FieldInfo{Key: "$g.maps", Sort: ArrSort(SRef, SSetStr), Ghost: true,
+		Ty: types.NewMap(types.NewInterfaceType(nil, nil), types.NewMap(types.Typ[types.String], types.NewStruct(nil, nil)))}
 	for _, g := range w.CS.Ghosts {
 		ty, ok := w.parseTypeText(g.Type, nil)
 		var s Sort
